@@ -274,6 +274,18 @@ def h_ascii_pred(engine, st, fr, callee, argv, m):
         return BoolV(rng(97, 122))
     if name == "is_ascii_uppercase":
         return BoolV(rng(65, 90))
+    if name == "is_ascii_alphanumeric":
+        return BoolV(z3.Or(rng(48, 57), rng(65, 90), rng(97, 122)))
+    if name == "is_ascii_hexdigit":
+        return BoolV(z3.Or(rng(48, 57), rng(65, 70), rng(97, 102)))
+    if name == "is_ascii_punctuation":
+        return BoolV(z3.Or(rng(33, 47), rng(58, 64), rng(91, 96), rng(123, 126)))
+    if name == "is_ascii_graphic":
+        return BoolV(rng(33, 126))
+    if name == "is_ascii_control":
+        return BoolV(z3.Or(rng(0, 31), c == z3.BitVecVal(127, v.width)))
+    if name == "is_ascii":
+        return BoolV(z3.ULE(c, z3.BitVecVal(127, v.width)))
     raise Unsupported(name)
 
 
@@ -509,7 +521,8 @@ CORE_STUBS = [
     (rx(r"^core::f64::<impl f64>::is_nan$"), h_is_nan),
     (rx(r"^core::slice::<impl \[f64\]>::get::<usize>$"), h_slice_get_f64),
     (rx(r"^core::slice::<impl \[u8\]>::contains$"), h_slice_contains),
-    (rx(r"^core::num::<impl u8>::(is_ascii_\w+)$"), h_ascii_pred),
+    (rx(r"^core::num::<impl u8>::(is_ascii(?:_\w+)?)$"), h_ascii_pred),
+    (rx(r"^(?:core::)?char::methods::<impl char>::(is_ascii(?:_\w+)?)$"), h_ascii_pred),
     (rx(r"^core::num::<impl u8>::to_ascii_lowercase$"), h_to_ascii_lowercase),
     (rx(r"^(?:parse::error::)?Error::syntax$"), h_error_syntax),
     (rx(r"^(?:parse::error::)?Error::io$"), h_error_io),
@@ -661,6 +674,15 @@ def h_identity(engine, st, fr, callee, argv, m):
     return argv[0]
 
 
+def h_res_map(engine, st, fr, callee, argv, m):
+    r, cl = argv
+    f = closure_fn(engine, cl)
+    okp = list(r.variants.get(0, [UNINIT]))
+    errp = list(r.variants.get(1, [UNINIT]))
+    return ("fork", [(r.discr == 0, ("frame", f, fargs(f, cl, okp), lambda v: EnumV("Result", 0, {0: [v]})), None),
+                     (r.discr != 0, EnumV("Result", 1, {1: errp}), None)])
+
+
 def h_res_is(engine, st, fr, callee, argv, m):
     r = argv[0]
     if isinstance(r, Ref):
@@ -680,6 +702,7 @@ GENERIC_COMBINATORS = [
     (rx(r"^(?:std::option::)?Option::<.*>::is_some_and::<"), h_opt_is_some_and),
     (rx(r"^(?:std::option::)?Option::<.*>::unwrap_or$"), h_opt_unwrap_or),
     (rx(r"^(?:std::option::)?Option::<&.*>::(copied|cloned)$"), h_identity),
+    (rx(r"^std::result::Result::<.*>::map::<.*\{closure@"), h_res_map),
     (rx(r"^std::result::Result::<.*>::(is_ok|is_err)$"), h_res_is),
     (rx(r"^std::result::Result::<.*>::(ok|err)$"), h_res_ok_err),
 ]
